@@ -442,7 +442,7 @@ fn rnd_ref(rng: &mut Rng) -> [f64; 2] {
 }
 
 pub fn run(out: &mut Out, rng: &mut Rng, thorough: bool) {
-    let k = if thorough { 20 } else { 1 };
+    let k = if thorough { 8 } else { 1 };
 
     // 0. the two packets of the repository's own test
     {
